@@ -23,7 +23,7 @@ LEVEL = ("Generated-input exploration over multi-modal / anisotropic / degenerat
 BUDGET = {"quick": 250, "thorough": 2500}
 WATCHDOG = {"quick": 20, "thorough": 60}
 RULE = ("Cases: 20..80 descriptors (thorough 250) in 1..4 dimensions from 1..3 anisotropic clusters, 15% with a coordinate that is a "
-        "multiple of another (degenerate), 15% binned onto a half-integer lattice with grid points on distinct lattice sites (exact ties, repeated descriptors), weights None / positive, grids of 2..sqrt(n)+2 points (random subset, farthest-point subset or "
+        "multiple of another (degenerate), 15% binned onto a half-integer lattice with grid points on distinct lattice sites (exact ties, repeated descriptors), weights None / positive / positive with exact zeros, grids of 2..sqrt(n)+2 points (random subset, farthest-point subset or "
         "arbitrary points), fpoints in (0.1,0.8) or fspread in 10^(-3,0), optional cell (1.2..3 x extent, or all sides 2 pi), 4 queries "
         "near the data, 2 far away and 2 sharing all but one coordinate with a descriptor; refit of the same object on a second grid; translations, permutations of descriptors and grid points, integer image shifts -2..2 of "
         "descriptors, queries and (in half of the periodic cases) grid points.  Precondition by construction/classification: "
@@ -88,6 +88,10 @@ def strategy_(draw, tier):
         desc = rng.integers(0, msite, size=(n, D)) * 0.5
         degenerate = False
     w = None if draw(st.booleans()) else rng.uniform(0.2, 2, size=n)
+    if w is not None and draw(st.integers(0, 2)) == 0:
+        w[rng.random(n) < 0.2] = 0.0          # masked descriptors: weight exactly zero
+        if not (w > 0).sum() >= 2:
+            w[:2] = 1.0
     ng = draw(st.integers(2, max(3, int(np.sqrt(n)) + 2)))
     gkind = draw(st.sampled_from(["subset", "subset", "fps", "arbitrary"]))
     if lattice:
